@@ -38,7 +38,7 @@ thread_local! {
 /// Install the quiet panic hook. shuttle installs its own (noisy) hook once, at the first run;
 /// so run one trivial execution first and replace the hook afterwards.
 pub fn init() {
-    let (s, _) = SimScheduler::new(SchedSpec { kind: SchedKind::Fair, seed: 0, early_wake_pm: 0, fair_after: u32::MAX, replay: None });
+    let (s, _) = SimScheduler::new(SchedSpec { kind: SchedKind::Fair, seed: 0, early_wake_pm: 0, fair_after: u32::MAX, replay: None, steer_pm: 0 });
     let mut cfg = Config::new();
     cfg.failure_persistence = FailurePersistence::None;
     Runner::new(s, cfg).run(|| {});
@@ -120,7 +120,7 @@ where
     F: Fn() -> T + Send + Sync + 'static,
 {
     execute(
-        SchedSpec { kind: SchedKind::Fair, seed: 0, early_wake_pm: 0, fair_after: u32::MAX, replay: None },
+        SchedSpec { kind: SchedKind::Fair, seed: 0, early_wake_pm: 0, fair_after: u32::MAX, replay: None, steer_pm: 0 },
         50_000_000,
         f,
     )
